@@ -14,6 +14,7 @@ import NsyncVerif.Model.MuCDriver
 import NsyncVerif.Model.WaitNDriver
 import NsyncVerif.Model.SemWaitDriver
 import NsyncVerif.Model.CvMuDriver
+import NsyncVerif.Model.PoolDriver
 /-
   `replay <layer>…` : reads a harness log (or a differential case file) on stdin and feeds every line
   to the selected layers.  A layer answers `ok`, `skip`, `#` or a complaint (`REJECT …`, `MISMATCH …`,
@@ -40,6 +41,7 @@ structure Layers where
   waitn : WaitN.Driver.DState := WaitN.Driver.init
   semwait : SemWait.Driver.DState := SemWait.Driver.init
   cvmu : CvMu.Driver.DState := CvMu.Driver.init
+  pool : Pool.Driver.DState := Pool.Driver.init
 
 /-- Nested API boundaries are logged as `ncall`/`nret` with structured names (`oncesync5.mu`,
     `ctr0.mu`, …); the layers that treat an inner mutex/cv as a black box were written against
@@ -87,6 +89,7 @@ def Layers.feed (l : Layers) (name line : String) : Layers × String :=
   | "waitn" => let (d, o) := WaitN.Driver.step l.waitn line; ({ l with waitn := d }, o)
   | "semwait" => let (d, o) := SemWait.Driver.step l.semwait line; ({ l with semwait := d }, o)
   | "cvmu" => let (d, o) := CvMu.Driver.step l.cvmu line; ({ l with cvmu := d }, o)
+  | "pool" => let (d, o) := Pool.Driver.step l.pool line; ({ l with pool := d }, o)
   | "vc" => let (d, o) := VC.Driver.step l.vc line; ({ l with vc := d }, o)
   | "deadline" => let (d, o) := Deadline.Driver.step l.deadline line; ({ l with deadline := d }, o)
   | "dll" => let (d, o) := Dll.Driver.step l.dll line; ({ l with dll := d }, o)
